@@ -288,4 +288,21 @@ theorem result_perm_sorted (c : Comp Θ S L σ) (k : Core Θ S L σ) :
       exact insertBy_sorted _ (fun a b => htot a.2 b.2) (fun a b d h1 h2 => htr a.2 b.2 d.2 h1 h2) x _ ih
   exact (hs _).imp (by intro a b h; simpa using h)
 
+/-- **a call that runs no batch** (`calibrate(0)`, first, in between or last): nothing is recorded, nothing fails — and what it returns is,
+as for every call, the recorded pairs sorted by increasing loss (`result_perm_sorted` holds for the state it leaves) -/
+theorem calibrate_zero (c : Comp Θ S L σ) (s : State Θ S L σ) :
+    (calibrate c 0 s).2 = none ∧ (calibrate c 0 s).1.core.hist = s.core.hist ∧
+    (result c (calibrate c 0 s).1.core).Perm (s.core.params.zip s.core.losses) := by
+  have h : (calibrate c 0 s).2 = none ∧ (calibrate c 0 s).1.core.hist = s.core.hist := by
+    unfold calibrate
+    by_cases hb : s.core.batchIdx = 0
+    · simp [hb, calLoop, setSeeds, Core.hist]
+    · simp [hb, calLoop]
+  refine ⟨h.1, h.2, ?_⟩
+  have hp := (result_perm_sorted c (calibrate c 0 s).1.core).1
+  have hh := h.2
+  simp only [Core.hist, Hist.mk.injEq] at hh
+  rw [hh.1, hh.2.1] at hp
+  exact hp
+
 end BlackIt.Calibrator
